@@ -21,7 +21,7 @@ PROP = dict(
          "separate processes - fresh hash seeds - with RAYON_NUM_THREADS in {1,2,3,8,16} and SOURCE_DATE_EPOCH fixed; "
          "all outputs must be byte-identical; the name records of each font are handed to the model's sort in two other orders "
          "and must come out as the font has them. Non-trivial = the source compiles; distinct = distinct source.",
-    trusted_base=["Coq 8.16.1 kernel (coqc; vm_compute for the timestamp cases)",
+    trusted_base=["Coq 8.16.1 kernel (coqc; vm_compute for the timestamp, name-record and table-directory cases)",
                   "scheduler model FV.C02.Model (tied to the code by the C02 check) and the conflict-serialisability "
                   "development FV.C01.Det / SchedDet; hand-written timestamp model tied to head.created/modified",
                   "Rust harness /verif/harness (c01): child processes of the harness binary compile through fontc::generate_font; "
